@@ -219,7 +219,7 @@ theorem structSem_law (cfg : Cfg) (schemas : List Schema) (inner : Sem) (env : E
       exact ⟨v', by simp [structSem, hfind, hk, hr], by simp [structSem, hfind, hk, hw2]⟩
     · have hw' : writeEnum S v = .ok p := by
         rcases hk with hk | hk <;> simpa [structSem, hfind, hk] using hw
-      obtain ⟨hr, hvp⟩ := enum_write_read S v p hw'
+      obtain ⟨hr, hvp⟩ := enum_write_read env S v p hw'
       refine ⟨v, ?_, ?_⟩
       · rcases hk with hk | hk <;> simp [structSem, hfind, hk, hr]
       · rcases hk with hk | hk <;> simp [structSem, hfind, hk, hw']
